@@ -139,8 +139,8 @@ func randCommand(r *rng, stat map[string]int) *t_aio.Command {
 			st = append(st, pick(r, all))
 		}
 		c = &t_aio.Command{Kind: t_aio.SearchPromises, SearchPromises: &t_aio.SearchPromisesCommand{
-			Id: pick(r, []string{"*", "a*", "*b", "a_b", "A*", "*:*", "a"}), States: st,
-			Tags: pick(r, []map[string]string{{}, {"a": "1"}, {"a": "2", "b": "x y"}, {"a.b": "1"}, {"x": "1"}}), Limit: pick(r, []int{1, 2, 3, 100}), SortId: sid}}
+			Id: pick(r, []string{"*", "*", "*", "a*", "*b", "a_b", "A*", "*:*", "a"}), States: st,
+			Tags: pick(r, []map[string]string{{}, {}, {}, {"a": "1"}, {"a": "2", "b": "x y"}, {"a.b": "1"}, {"x": "1"}}), Limit: pick(r, []int{1, 2, 3, 100}), SortId: sid}}
 	case 3:
 		c = &t_aio.Command{Kind: t_aio.CreatePromise, CreatePromise: randCreatePromise(r)}
 	case 4:
@@ -268,6 +268,23 @@ func runStoreTrace(seed uint64, dir string, steps int, block bool, pg bool) (tr 
 		Process([]*bus.SQE[t_aio.Submission, t_aio.Completion]) []*bus.CQE[t_aio.Submission, t_aio.Completion]
 	}
 	var exec processor = st
+	// family commit, second way of losing a transaction: the transaction's deadline (tx-timeout) passes while a write
+	// statement waits for the file's write lock; database/sql then rolls the transaction back on its own and the
+	// COMMIT that follows is refused.  A second store on the same file with a short deadline and a long busy timeout.
+	var late processor
+	if block {
+		st2, err := sqlite.New(nil, m, &sqlite.Config{BatchSize: 100, Path: path + "?_busy_timeout=5000", TxTimeout: 250 * time.Millisecond})
+		if err != nil {
+			tr.Error = err.Error()
+			return tr
+		}
+		if err := st2.Start(nil); err != nil {
+			tr.Error = err.Error()
+			return tr
+		}
+		defer func() { _ = st2.Stop() }()
+		late = st2
+	}
 	if pg {
 		pdb, err := sql.Open("pgshim", path)
 		if err != nil {
@@ -298,8 +315,9 @@ func runStoreTrace(seed uint64, dir string, steps int, block bool, pg bool) (tr 
 					} else {
 						c = randCommand(r, tr.Stats)
 					}
-					// the three statements that differ structurally between the back ends are not sent through the shim
-					if pg && (c.Kind == t_aio.SearchPromises || c.Kind == t_aio.SearchSchedules || c.Kind == t_aio.ReadEnqueueableTasks) {
+					// the enqueueable selection differs structurally between the back ends (DISTINCT ON) and is not sent
+					// through the shim; the two tag searches are (their containment operator is a registered function)
+					if pg && c.Kind == t_aio.ReadEnqueueableTasks {
 						continue
 					}
 					cmds = append(cmds, c)
@@ -311,15 +329,34 @@ func runStoreTrace(seed uint64, dir string, steps int, block bool, pg bool) (tr 
 			txns = append(txns, TxnT(tx))
 		}
 		blocked := block && r.chance(0.3)
+		// one blocked batch in eight loses its transaction to the deadline instead of to a reader (only batches that
+		// write: a batch of reads does not wait for the write lock)
+		deadline := blocked && s%8 == 3 && !readsOnly(sqes)
 		var release func()
-		if blocked {
-			release, err = ob.holdRead()
+		var cqes []*bus.CQE[t_aio.Submission, t_aio.Completion]
+		if deadline {
+			release, err = ob.holdWrite()
 			if err != nil {
 				tr.Error = err.Error()
 				return tr
 			}
+			timer := time.AfterFunc(800*time.Millisecond, release)
+			cqes = late.Process(sqes)
+			if timer.Stop() {
+				release()
+			}
+			release = nil
+			tr.Stats["commit:deadline"]++
+		} else {
+			if blocked {
+				release, err = ob.holdRead()
+				if err != nil {
+					tr.Error = err.Error()
+					return tr
+				}
+			}
+			cqes = exec.Process(sqes)
 		}
-		cqes := exec.Process(sqes)
 		if release != nil {
 			release()
 		}
@@ -375,6 +412,20 @@ func runStoreTrace(seed uint64, dir string, steps int, block bool, pg bool) (tr 
 		}
 	}
 	return tr
+}
+
+func readsOnly(sqes []*bus.SQE[t_aio.Submission, t_aio.Completion]) bool {
+	for _, sqe := range sqes {
+		for _, c := range sqe.Submission.Store.Transaction.Commands {
+			switch c.Kind {
+			case t_aio.ReadPromise, t_aio.ReadPromises, t_aio.SearchPromises, t_aio.ReadSchedule, t_aio.ReadSchedules, t_aio.SearchSchedules,
+				t_aio.ReadTask, t_aio.ReadTasks, t_aio.ReadEnqueueableTasks, t_aio.ReadLock:
+			default:
+				return false
+			}
+		}
+	}
+	return true
 }
 
 func cmdStore(args []string)   { cmdStoreX(args, 0) }
